@@ -17,6 +17,8 @@
 //! frame, naming the changed files; frame order = order in which the mutations ended.
 //! Correspondence: the observed micro-steps (+ blocked attempts) are replayed in the Coq LTS
 //! compiled from the regenerated spans (Model.WsLockCase.check_case).
+#[path = "c11/bg.rs"]
+mod bg;
 #[path = "c11/fx.rs"]
 mod fx;
 #[path = "../ws_common.rs"]
@@ -54,12 +56,21 @@ enum Kind {
     /// a write / apply_patch / bash call whose FILE EFFECTS are the point (shape `fx::shape(n, ..)`): the frame's
     /// affected_paths against the workspace diff of the call
     Fx(u32),
+    /// a shell command (pipes task / pty task / bash tool, `bg::site`) whose shell returns at once and leaves a
+    /// child behind that writes the workspace later (`bg::shape`: still attached to the execution's pipes or not)
+    Bg(u32),
 }
 use Kind::*;
 
 impl Kind {
     fn is_task(self) -> bool {
-        matches!(self, Task | TaskPty)
+        matches!(self, Task | TaskPty) || matches!(self, Bg(n) if bg::is_task(n))
+    }
+    fn bg_attached(self) -> bool {
+        matches!(self, Bg(n) if bg::attached(n))
+    }
+    fn is_bg(self) -> bool {
+        matches!(self, Bg(_))
     }
     fn is_ckpt(self) -> bool {
         matches!(self, CkptCreate | CkptRewind)
@@ -76,6 +87,7 @@ impl Kind {
             Grep => "grep",
             Fetch => "artifact_fetch",
             Fx(n) => fx::tool_name(n),
+            Bg(n) if !bg::is_task(n) => "bash",
             _ => "",
         }
     }
@@ -84,17 +96,21 @@ impl Kind {
         matches!(self, Read | Ls | Grep | Fetch)
     }
     fn spec_mutating_tool(self) -> bool {
-        matches!(self, Bash | Shell | BashQuick | BashTimeout | Write | Patch | Fx(_))
+        matches!(self, Bash | Shell | BashQuick | BashTimeout | Write | Patch | Fx(_)) || matches!(self, Bg(n) if !bg::is_task(n))
     }
     fn blocking(self) -> bool {
-        matches!(self, Bash | Shell | BashTimeout | Task | TaskPty)
+        // an attached child keeps the section of its execution open until the harness lets it write
+        matches!(self, Bash | Shell | BashTimeout | Task | TaskPty) || self.bg_attached()
+    }
+    fn needs_fifo(self) -> bool {
+        self.blocking() || self.is_bg()
     }
     fn marks(self) -> bool {
-        matches!(self, Bash | Shell | BashQuick | BashTimeout | Task | TaskPty) || matches!(self, Fx(n) if fx::class(n) == fx::CLASS_BASH)
+        matches!(self, Bash | Shell | BashQuick | BashTimeout | Task | TaskPty | Bg(_)) || matches!(self, Fx(n) if fx::class(n) == fx::CLASS_BASH)
     }
     /// the tool of the call as the property classifies it: a shell command (its frame carries no file list)
     fn is_shell_tool(self) -> bool {
-        matches!(self, Bash | Shell | BashQuick | BashTimeout) || matches!(self, Fx(n) if fx::class(n) == fx::CLASS_BASH)
+        matches!(self, Bash | Shell | BashQuick | BashTimeout) || matches!(self, Fx(n) if fx::class(n) == fx::CLASS_BASH) || matches!(self, Bg(n) if !bg::is_task(n))
     }
 }
 
@@ -105,7 +121,9 @@ fn fx_dir(i: usize, c: usize) -> String {
 /// the workspace without `.rip`
 fn ws_listing(ws: &Path) -> ws_common::Listing {
     let mut l = ws_common::list_tree(ws);
-    l.retain(|c, _| c.first().map(|x| x.as_slice() != b".rip").unwrap_or(true));
+    // `late_<actor>.txt`: written by the children `Bg` commands leave behind, at moments the harness chooses (a
+    // DETACHED child writes while somebody else's call is in its span: not part of that call's diff)
+    l.retain(|c, _| c.first().map(|x| x.as_slice() != b".rip" && !x.starts_with(b"late_")).unwrap_or(true));
     l
 }
 fn listing_files(l: &ws_common::Listing) -> BTreeMap<String, Vec<u8>> {
@@ -239,8 +257,22 @@ enum Status {
 }
 
 const LONG: Duration = Duration::from_secs(90);
+/// watchdog for a read-only tool call of an envelope session reaching its first hook point (the tool has run):
+/// it takes no lock and touches a workspace of a handful of files, so 40 s is three orders of magnitude more than
+/// it needs; a call that is still not through while a mutating call is in progress was made to wait for it
+const RO_LONG: Duration = Duration::from_secs(40);
 
+#[derive(Default)]
 struct Obs {
+    /// `Bg`: attached children whose write came before their execution ended / detached children that wrote
+    /// after their execution had handed the lock on (while somebody else was inside its span / afterwards)
+    bg_held: u64,
+    bg_detached_in_span: u64,
+    bg_detached_late: u64,
+    /// lock and process-tree events in the order the harness saw them: (code, actor) with 1 acquired,
+    /// 2 the shell of a `Bg` command has exited, 3 its child wrote the workspace, 4 the execution ended
+    /// (`.ran` / `ws.task.done` reached), 5 released
+    tev: Vec<(u64, u64)>,
     steps: Vec<(u64, u64, u64)>,
     /// order in which the harness saw mutating tool calls of linked actors end: (actor, call)
     ends_linked: Vec<(usize, u64)>,
@@ -267,6 +299,10 @@ struct Run<'a> {
     call: Vec<u64>, // current call index (Loop)
     rewind_id: Option<String>,
     settle: Duration,
+    /// how long an execution whose shell has exited is watched for ending while its attached child is pending
+    drain_wait: Duration,
+    /// `Bg` actors whose detached child has not been let go yet
+    detached_pending: Vec<usize>,
     obs: Obs,
     files_seen: BTreeMap<String, Vec<u8>>,
     providers: Vec<rv::provider::ScriptedProvider>,
@@ -354,8 +390,145 @@ impl<'a> Run<'a> {
         }
     }
 
+    fn late_file(&self, i: usize) -> String {
+        format!("late_{i}.txt")
+    }
+    fn bg_command(&self, i: usize, n: u32) -> String {
+        bg::command(
+            n,
+            i,
+            &marker_path(&self.side).to_string_lossy(),
+            &self.side.join(format!("fifo{i}")).to_string_lossy(),
+            &self.ws.join(self.late_file(i)).to_string_lossy(),
+            Path::new("/usr/bin/setsid").exists(),
+        )
+    }
+    /// the marker file holds the line `<word> <i> ..`; its third field
+    fn marker_line(&self, word: &str, i: usize) -> Option<Option<i32>> {
+        let s = std::fs::read_to_string(marker_path(&self.side)).unwrap_or_default();
+        for l in s.lines() {
+            let mut it = l.split_whitespace();
+            if it.next() == Some(word) && it.next().and_then(|a| a.parse::<usize>().ok()) == Some(i) {
+                return Some(it.next().and_then(|p| p.parse::<i32>().ok()));
+            }
+        }
+        None
+    }
+    fn wait_marker(&self, word: &str, i: usize, limit: Duration) -> Option<Option<i32>> {
+        let t0 = Instant::now();
+        loop {
+            if let Some(x) = self.marker_line(word, i) {
+                return Some(x);
+            }
+            if t0.elapsed() > limit {
+                return None;
+            }
+            std::thread::sleep(Duration::from_millis(3));
+        }
+    }
+    fn release_fifo(&mut self, i: usize) {
+        if let Some(f) = self.fifos[i].as_mut() {
+            let _ = f.write_all(b"x\n");
+            let _ = f.flush();
+        }
+    }
+    /// the child of `Bg` actor i has been let go: its write shows up (true), or the child is gone without one.
+    /// Decided by what is observed (the marker line / the process table), not by a clock; LONG is the watchdog.
+    fn await_late(&mut self, i: usize) -> bool {
+        let pid = self.wait_marker("child", i, LONG).flatten();
+        let t0 = Instant::now();
+        loop {
+            if self.marker_line("late", i).is_some() {
+                self.obs.tev.push((3, i as u64));
+                return true;
+            }
+            if !pid.map(pid_running).unwrap_or(false) {
+                // one more look: the line may have been written just before the process went
+                if self.marker_line("late", i).is_some() {
+                    self.obs.tev.push((3, i as u64));
+                    return true;
+                }
+                return false;
+            }
+            if t0.elapsed() > LONG {
+                self.viol("stuck", format!("the child of actor {i} was released from its FIFO and neither wrote nor went away within {LONG:?}"));
+                return false;
+            }
+            std::thread::sleep(Duration::from_millis(3));
+        }
+    }
+    /// detached children (all inherited streams closed) of executions that have ended: let them write now
+    /// (`inside`: an actor that has just acquired the lock).  Nothing is demanded of them - the execution
+    /// cannot know them any more; what the code does is counted and reported in the notes.
+    fn flush_detached(&mut self, inside: Option<usize>) {
+        let pend: Vec<usize> = self.detached_pending.iter().copied().filter(|d| Some(*d) != inside && self.span_owner != Some(*d)).collect();
+        for d in pend {
+            self.detached_pending.retain(|x| *x != d);
+            self.release_fifo(d);
+            if self.await_late(d) {
+                if inside.is_some() {
+                    self.obs.bg_detached_in_span += 1;
+                } else {
+                    self.obs.bg_detached_late += 1;
+                }
+            }
+        }
+    }
+
+    /// An execution whose shell has exited while a child of the command, still holding one of the execution's
+    /// output streams, sits in its FIFO: it must stay in progress.  Watched for `drain_wait`; when it ends all the
+    /// same, the consequence is played out - the lock is handed on, a queued mutating actor takes it, THEN the child
+    /// is let go - and judged by the order of the observed events.  true = the execution ended early (handled here).
+    fn bg_window(&mut self, i: usize) -> bool {
+        let Bg(n) = self.cur_kind(i) else { return false };
+        if self.wait_marker("shellexit", i, LONG).is_none() {
+            self.viol("stuck", format!("the shell of actor {i} ({}) did not get past starting its child within {LONG:?}", bg::tag(n)));
+            return true;
+        }
+        self.obs.tev.push((2, i as u64));
+        let child = self.wait_marker("child", i, LONG).flatten();
+        let st = self.wait_actor(i, self.drain_wait, false);
+        let Status::Parked(p) = st else { return false };
+        self.status[i] = st;
+        self.tool_running = false;
+        self.obs.tev.push((4, i as u64));
+        self.ended(i);
+        if !child.map(pid_running).unwrap_or(false) {
+            return true; // nothing of the command tree is left: the end is the end
+        }
+        // hand the lock on
+        let mut guard = 0;
+        while let Status::Parked(q) = self.status[i] {
+            guard += 1;
+            if guard > 8 || self.span_owner != Some(i) {
+                break;
+            }
+            self.go_from(i, q);
+        }
+        // somebody to take it
+        if self.span_owner.is_none() {
+            let cand = (0..self.status.len()).find(|j| *j != i && matches!(self.status[*j], Status::Parked(q) if q.ends_with(".before_acquire")));
+            if let Some(j) = cand {
+                self.go(j);
+            }
+        }
+        let holder = self.span_owner.filter(|j| *j != i);
+        let free = ripd::verif::workspace_lock_free(&self.engine);
+        self.release_fifo(i);
+        if self.await_late(i) {
+            let pid = child.unwrap_or(0);
+            let tag = bg::tag(n);
+            match holder {
+                Some(j) => self.viol("overlap", format!("{tag}: actor {i} ended its execution (reached {p}) and handed the workspace lock on while a child of its command (pid {pid}) was alive and still held the execution's output stream(s); actor {j} ({:?}) then acquired the lock, and the child wrote {} while {j} was inside its span - order of the observed events: {i} ended, {i} released, {j} acquired, write by {i}'s command tree", self.sc.actors[j].kind, self.late_file(i))),
+                None => self.viol("unlocked-mutation", format!("{tag}: actor {i} ended its execution (reached {p}) and gave the workspace lock back (lock free: {free}) while a child of its command (pid {pid}) was alive and still held the execution's output stream(s); the child then wrote {} with nobody holding the lock for it", self.late_file(i))),
+            }
+        }
+        true
+    }
+
     fn tool_args(&self, i: usize, c: usize, k: Kind) -> Value {
         match k {
+            Bg(n) => json!({"command": self.bg_command(i, n)}),
             Bash | Shell | BashQuick | BashTimeout => json!({"command": self.command(i, k.blocking())}),
             Write => json!({"path": self.call_file(i, c), "content": format!("by {i}\n")}),
             Patch => {
@@ -440,6 +613,11 @@ impl<'a> Run<'a> {
     }
 
     fn push(&mut self, a: usize, code: u64, call: u64) {
+        match code {
+            1 => self.obs.tev.push((1, a as u64)),
+            6 => self.obs.tev.push((5, a as u64)),
+            _ => {}
+        }
         self.obs.steps.push((a as u64, code, call));
     }
     fn viol(&mut self, class: &str, what: String) {
@@ -525,6 +703,9 @@ impl<'a> Run<'a> {
             for (c, k) in a.calls.iter().enumerate() {
                 add(*k, self.call_file(i, c));
             }
+            if a.kind.bg_attached() || a.calls.iter().any(|k| k.bg_attached()) {
+                targets.push((i, self.late_file(i)));
+            }
             let mut addfx = |k: Kind, c: usize| {
                 if let Fx(n) = k {
                     if fx::class(n) != fx::CLASS_BASH {
@@ -557,7 +738,7 @@ impl<'a> Run<'a> {
     fn start(&mut self, i: usize) {
         let spec = self.sc.actors[i].clone();
         self.ctl.set_starting(i);
-        if spec.kind.blocking() || spec.calls.iter().any(|k| k.blocking()) {
+        if spec.kind.needs_fifo() || spec.calls.iter().any(|k| k.needs_fifo()) {
             let p = self.side.join(format!("fifo{i}"));
             let c = std::ffi::CString::new(p.to_string_lossy().as_bytes()).unwrap();
             unsafe {
@@ -566,7 +747,11 @@ impl<'a> Run<'a> {
             self.fifos[i] = std::fs::OpenOptions::new().read(true).write(true).open(&p).ok();
         }
         if spec.kind.is_task() {
-            let h = ripd::verif::spawn_shell_task_handle(&self.engine, "bash", json!({"command": self.command(i, true)}), spec.kind == TaskPty);
+            let (cmd, pty) = match spec.kind {
+                Bg(n) => (self.bg_command(i, n), bg::site(n) == bg::SITE_PTY),
+                k => (self.command(i, true), k == TaskPty),
+            };
+            let h = ripd::verif::spawn_shell_task_handle(&self.engine, "bash", json!({"command": cmd}), pty);
             self.ids[i] = h.task_id();
             self.task_handles[i] = Some(h);
         } else {
@@ -602,7 +787,8 @@ impl<'a> Run<'a> {
         // a blocking command that shows up in the marker file before the actor reached any hook point
         // runs without having gone for the lock at all
         let first_blocking = spec.kind.blocking() || spec.calls.first().map(|k| k.blocking()).unwrap_or(false);
-        let st = self.wait_actor(i, LONG, first_blocking && !spec.kind.is_task());
+        let limit = if spec.kind.spec_readonly() { RO_LONG } else { LONG };
+        let st = self.wait_actor(i, limit, first_blocking && !spec.kind.is_task());
         self.status[i] = st;
         match st {
             Status::Inside => {
@@ -617,7 +803,11 @@ impl<'a> Run<'a> {
             }
             Status::Parked(p) => self.on_first_park(i, p),
             Status::Done => self.viol("harness", format!("actor {i} ({:?}) finished without reaching a hook point", spec.kind)),
-            _ => self.viol("stuck", format!("actor {i} ({:?}) did not reach its first hook point within {LONG:?}", spec.kind)),
+            _ if spec.kind.spec_readonly() && self.span_owner.is_some() && self.tool_running => {
+                let o = self.span_owner.unwrap_or(0);
+                self.viol("readonly-blocked", format!("read-only tool {} of actor {i} did not complete within {RO_LONG:?} while the mutating call of actor {o} ({:?}) was in progress: read-only tools must overlap it freely", spec.kind.tool_name(), self.sc.actors[o].kind))
+            }
+            _ => self.viol("stuck", format!("actor {i} ({:?}) did not reach its first hook point within {limit:?}", spec.kind)),
         }
     }
 
@@ -671,16 +861,27 @@ impl<'a> Run<'a> {
             Status::Inside => {
                 // release the FIFO; the command writes its exit marker and returns (a call with a
                 // timeout is left alone: it ends by itself while the command still sits in its FIFO)
-                if self.cur_kind(i) == BashTimeout {
-                } else if let Some(f) = self.fifos[i].as_mut() {
-                    let _ = f.write_all(b"x\n");
-                    let _ = f.flush();
+                let bgk = self.cur_kind(i).is_bg();
+                if bgk && self.bg_window(i) {
+                    self.fs_check(i);
+                    return true;
                 }
+                if self.cur_kind(i) == BashTimeout {
+                } else {
+                    self.release_fifo(i);
+                }
+                let wrote = bgk && self.await_late(i);
                 let st = self.wait_actor(i, LONG, false);
                 self.status[i] = st;
                 match st {
                     Status::Parked(p) if p.ends_with(".ran") || p == "ws.task.done" => {
                         self.tool_running = false;
+                        if bgk {
+                            self.obs.tev.push((4, i as u64));
+                            if wrote {
+                                self.obs.bg_held += 1;
+                            }
+                        }
                         self.ended(i);
                     }
                     Status::Done => self.viol("untracked", format!("actor {i} released from its FIFO finished without passing a hook point")),
@@ -703,7 +904,11 @@ impl<'a> Run<'a> {
         if self.entered(i) {
             // the call is over but its command never wrote the exit marker (killed by a cancel or a
             // timeout?): the section is over when the process is gone — and still open if it lives on
-            let pid = read_markers_pid(&self.side).iter().rev().find(|(a, w, _)| *a == i && *w == 0).and_then(|(_, _, p)| *p);
+            let mut pid = read_markers_pid(&self.side).iter().rev().find(|(a, w, _)| *a == i && *w == 0).and_then(|(_, _, p)| *p);
+            if self.cur_kind(i).is_bg() {
+                // the section is the command TREE's: it is over when the child that closes it is gone
+                pid = self.marker_line("child", i).flatten();
+            }
             let t0 = Instant::now();
             let mut alive = true;
             while alive && t0.elapsed() < Duration::from_secs(3) {
@@ -791,6 +996,7 @@ impl<'a> Run<'a> {
             return;
         }
         if p.ends_with(".acquired") {
+            self.flush_detached(Some(i));
             self.ws_before_listing = ws_listing(&self.ws);
             self.ws_before = listing_files(&self.ws_before_listing);
             self.ctl.grant(i);
@@ -802,6 +1008,12 @@ impl<'a> Run<'a> {
                 Status::Parked(q) if q.ends_with(".ran") || q == "ws.task.done" => {
                     self.push(i, 2, c);
                     self.tool_running = false;
+                    if k.is_bg() {
+                        // a detached child: the execution saw end-of-stream as soon as the shell was gone
+                        self.obs.tev.push((2, i as u64));
+                        self.obs.tev.push((4, i as u64));
+                        self.detached_pending.push(i);
+                    }
                     self.ended(i);
                 }
                 other => self.viol("stuck", format!("actor {i} running its tool came back as {other:?}")),
@@ -1039,6 +1251,8 @@ struct Outcome {
     /// (frames with a file list, listed paths, listed paths the call left unchanged, frames without a list)
     fx_stats: [u64; 4],
     fx_tags: Vec<String>,
+    /// one Coq term (Model.WsLockTree.tcase) per `Bg` actor: the lock / process-tree events in observed order
+    tree_cases: Vec<String>,
 }
 
 fn wait_session_events(rx: &mut tokio::sync::broadcast::Receiver<Event>, limit: Duration) -> Vec<Event> {
@@ -1064,7 +1278,7 @@ fn wait_session_events(rx: &mut tokio::sync::broadcast::Receiver<Event>, limit: 
     }
 }
 
-fn run_scenario(rt: &tokio::runtime::Runtime, ctl: &Arc<Ctl>, sc: &Scenario, settle: Duration, max_blocked: u64) -> Outcome {
+fn run_scenario(rt: &tokio::runtime::Runtime, ctl: &Arc<Ctl>, sc: &Scenario, settle: Duration, max_blocked: u64, drain_wait: Duration) -> Outcome {
     let scratch = Scratch::new("c11");
     let data = scratch.path().join("data");
     let ws = scratch.path().join("ws");
@@ -1135,7 +1349,9 @@ fn run_scenario(rt: &tokio::runtime::Runtime, ctl: &Arc<Ctl>, sc: &Scenario, set
         call: vec![0; n],
         rewind_id,
         settle,
-        obs: Obs { steps: vec![], ends_linked: vec![], violations: vec![], blocked_attempts: 0, ro_overlaps: 0, intrusions: 0, outlived: 0 },
+        obs: Obs::default(),
+        drain_wait,
+        detached_pending: vec![],
         files_seen: files_seen0,
         providers: vec![],
         task_handles: (0..n).map(|_| None).collect(),
@@ -1159,7 +1375,7 @@ fn run_scenario(rt: &tokio::runtime::Runtime, ctl: &Arc<Ctl>, sc: &Scenario, set
         guard += 1;
         // a watchdog hit or a plain overlap ends the scenario: the failing schedule is known, going on
         // would only run into waits on a lock the bookkeeping no longer understands
-        if guard > 400 || run.obs.violations.iter().any(|(c, _)| c == "stuck" || c == "overlap" || c == "unlocked-mutation" || c == "readonly-locked") {
+        if guard > 400 || run.obs.violations.iter().any(|(c, _)| c == "stuck" || c == "overlap" || c == "unlocked-mutation" || c == "readonly-locked" || c == "readonly-blocked") {
             break;
         }
         let cands: Vec<usize> = (0..n)
@@ -1192,7 +1408,7 @@ fn run_scenario(rt: &tokio::runtime::Runtime, ctl: &Arc<Ctl>, sc: &Scenario, set
             }
         }
         // cancel requests: gos entries 1000 + actor
-        let cancellable: Vec<usize> = (0..n).filter(|i| sc.actors[*i].kind.is_task() && !run.cancelled[*i] && run.status[*i] == Status::Blocked).collect();
+        let cancellable: Vec<usize> = (0..n).filter(|i| sc.actors[*i].kind.is_task() && !sc.actors[*i].kind.is_bg() && !run.cancelled[*i] && run.status[*i] == Status::Blocked).collect();
         if run.priority.is_none() {
             if scripted {
                 if k < sc.gos.len() && sc.gos[k] >= 1000 {
@@ -1242,6 +1458,10 @@ fn run_scenario(rt: &tokio::runtime::Runtime, ctl: &Arc<Ctl>, sc: &Scenario, set
         run.check_blocked_arrivals(pick);
     }
 
+    // detached children nobody has let go yet: now (nobody inside)
+    if !run.obs.violations.iter().any(|(c, _)| c == "stuck") {
+        run.flush_detached(None);
+    }
     // whatever happened, let everything finish
     ctl.free_all();
     for i in 0..n {
@@ -1428,7 +1648,7 @@ fn run_scenario(rt: &tokio::runtime::Runtime, ctl: &Arc<Ctl>, sc: &Scenario, set
             run.viol("frame-order", format!("side-effects frames on the thread are in order {got:?} (actor, call); the mutations ended in order {want:?}"));
         }
     }
-    let obs = std::mem::replace(&mut run.obs, Obs { steps: vec![], ends_linked: vec![], violations: vec![], blocked_attempts: 0, ro_overlaps: 0, intrusions: 0, outlived: 0 });
+    let obs = std::mem::take(&mut run.obs);
     ctl.mu.lock().unwrap().active = false;
     drop(run);
     // attribute every marker to the call that wrote it: the j-th section of a loop session belongs to
@@ -1448,7 +1668,30 @@ fn run_scenario(rt: &tokio::runtime::Runtime, ctl: &Arc<Ctl>, sc: &Scenario, set
         }
         keyed.push((*a as u64 * 256 + call as u64, *w));
     }
-    Outcome { gos, obs, done, frames, marks: keyed, fx_cases, fx_stats, fx_tags }
+    // the process-tree view of every `Bg` actor: its own events and everybody's acquire / release
+    let mut tree_cases = vec![];
+    for (i, a) in sc.actors.iter().enumerate() {
+        let bgn = match a.kind {
+            Bg(n) => Some(n),
+            _ => a.calls.iter().find_map(|k| if let Bg(n) = k { Some(*n) } else { None }),
+        };
+        let Some(n) = bgn else { continue };
+        if !obs.tev.iter().any(|(c, x)| *c == 2 && *x == i as u64) {
+            continue; // the command never ran (scenario cut short)
+        }
+        let (o, e) = bg::holds(n);
+        // of the actor's own acquires / releases (a loop session has one pair per mutating call) only the pair
+        // around this command
+        let me = i as u64;
+        let i2 = obs.tev.iter().position(|e| *e == (2, me)).unwrap_or(0);
+        let acq = obs.tev[..i2].iter().rposition(|e| *e == (1, me));
+        let i4 = obs.tev.iter().position(|e| *e == (4, me));
+        let rel = i4.and_then(|k4| obs.tev.iter().enumerate().position(|(k, e)| k > k4 && *e == (5, me)));
+        let own: Vec<(u64, u64)> = obs.tev.iter().enumerate().filter(|(k, e)| e.1 != me || !(e.0 == 1 || e.0 == 5) || Some(*k) == acq || Some(*k) == rel).map(|(_, e)| *e).collect();
+        let evs = coq_list(&own, |(c, x)| format!("({c}, {x})"));
+        tree_cases.push(format!("{{| t_site := {}; t_out := {}; t_err := {}; t_me := {i}; t_events := {evs} |}}", bg::site(n), coq_bool(o), coq_bool(e)));
+    }
+    Outcome { gos, obs, done, frames, marks: keyed, fx_cases, fx_stats, fx_tags, tree_cases }
 }
 
 // ------------------------------------------------------------------------------------ generation
@@ -1475,6 +1718,60 @@ fn gen_scenario(r: &mut Rng, thorough: bool) -> Scenario {
     // at most three FIFO-blocked shells can be inside the tool runner at once (its own permit count
     // is 4); more than one can only happen after a violation, keep the scenario small anyway
     Scenario { actors, gos: vec![], seed: r.next() }
+}
+
+/// what a command leaves behind: every site x every shape once (attached shapes cost the drain window each,
+/// so the quick tier takes the corners and rotates the rest with the seed), each with a mutating actor queued
+/// behind the lock and a reader that must pass meanwhile
+fn bg_scenario(n: u32, second: Kind, linked: bool, reader: bool) -> Scenario {
+    let a = |kind, linked| ActorSpec { kind, linked, calls: vec![], batch: false };
+    let mut actors = vec![a(Bg(n), linked && !bg::is_task(n)), a(second, !second.is_task())];
+    if reader {
+        actors.push(a(Ls, true));
+    }
+    // 0: start, acquire, run (attached: the shell is gone, the child sits in its FIFO); 1: start, go for the lock
+    // (blocked behind an attached one); the reader passes; 0: drain window, child let go, end; then whoever can move
+    let mut gos = vec![0, 0, 0, 1, 1];
+    if reader {
+        gos.extend([2, 2, 2]);
+    }
+    gos.extend([0, 0]);
+    Scenario { actors, gos, seed: 7000 + n as u64 }
+}
+
+fn corpus_bg(seed: u64, thorough: bool) -> Vec<Scenario> {
+    let mut out = vec![];
+    let seconds = [Write, BashQuick, Task, Patch, CkptCreate, Bash];
+    let mut j = seed as usize;
+    for site in 0..3u32 {
+        for shape in 0..bg::SHAPES {
+            let n = bg::make(site, shape);
+            // quick: every detached shape (cheap), the plain attached child on every site, and one more
+            // attached shape per site chosen by the seed
+            let rot = [1u32, 2, 5][(seed as usize + site as usize) % 3];
+            if thorough || !bg::attached(n) || shape == 0 || shape == rot {
+                j += 1;
+                out.push(bg_scenario(n, seconds[j % seconds.len()], j % 2 == 0, j % 3 == 0));
+            }
+        }
+    }
+    // through the agent-loop call site: the call in the middle of a run, alone and with company in one response
+    let lp = |calls: &[Kind], batch| ActorSpec { kind: Loop, linked: true, calls: calls.to_vec(), batch };
+    let w = ActorSpec { kind: Write, linked: true, calls: vec![], batch: false };
+    out.push(Scenario { actors: vec![lp(&[Write, Bg(bg::make(bg::SITE_TOOL, 0)), Ls], false), w.clone()], gos: vec![0, 0, 0, 0, 0, 0, 0, 0, 0, 1, 1, 0, 0], seed: 7100 });
+    out.push(Scenario { actors: vec![lp(&[Bg(bg::make(bg::SITE_TOOL, 3)), Write], true), w], gos: vec![], seed: 7101 });
+    out
+}
+
+fn gen_bg_scenario(r: &mut Rng) -> Scenario {
+    let n = bg::make(r.below(3) as u32, r.below(bg::SHAPES as u64) as u32);
+    let second = *r.pick(&[Write, BashQuick, Task, TaskPty, Patch, CkptCreate, CkptRewind, Bash, Shell]);
+    let mut sc = bg_scenario(n, second, r.chance(1, 2), r.chance(1, 2));
+    if r.chance(1, 2) {
+        sc.gos.clear(); // schedule drawn on line
+    }
+    sc.seed = r.next();
+    sc
 }
 
 /// variants of `Fx`: the hand-written shapes first, everything above is drawn from the number
@@ -1562,6 +1859,7 @@ fn coq_case(sc: &Scenario, o: &Outcome) -> String {
             Loop => (1, a.calls.iter().map(|k| k.tool_name()).collect()),
             CkptCreate | CkptRewind => (2, vec![]),
             Task | TaskPty => (3, vec![]),
+            k if k.is_task() => (3, vec![]),
             k => (0, vec![k.tool_name()]),
         };
         format!("({k}, {}, {})", coq_bool(a.linked), coq_list(&names, |s| coq_str(s)))
@@ -1579,6 +1877,9 @@ fn main() {
     res.rule = "scenario = 2..6 actors (sessions with tool envelopes bash/shell/write/apply_patch/unknown/read/ls/grep/artifact_fetch, checkpoint create/rewind, pipes/pty tasks; attached to one thread or not) driven in lock step at the ws.* hook points + FIFO-blocked commands; the Go sequence is drawn on line (2:1 in favour of moving somebody else while the lock is held, i.e. overlap attempts); non-trivial = at least one blocked attempt or a read-only call completed while a mutating call was running; distinct by (actors, Go sequence).  Fx(n) actors / calls = write (4 modes), apply_patch (add, update, delete, move, move onto an existing file, several operations on one path, failing and unparsable patches) and shell commands chosen for their FILE EFFECTS (hand-written corners + shapes drawn from n), each in a directory of its own: the workspace is listed when the call gets the lock and when its tool has returned, the diff (created, deleted, modified) is compared with the affected_paths of the call's side-effects frame, and the call is replayed in Model/SideEffects.v (fx cases)".into();
     let n: usize = a.extra.get("n").and_then(|v| v.parse().ok()).unwrap_or(if a.thorough() { 500 } else { 50 });
     let settle = Duration::from_millis(a.extra.get("settle-ms").and_then(|v| v.parse().ok()).unwrap_or(250));
+    // how long an execution with a pending attached child is watched for ending early (a bounded wait shorter
+    // than this shows up as a concrete overlap; a longer one is left to the generated obligation)
+    let drain_wait = Duration::from_millis(a.extra.get("drain-wait-ms").and_then(|v| v.parse().ok()).unwrap_or(if a.thorough() { 6000 } else { 3500 }));
     // scratch dirs of earlier runs that were killed (watchdog of the driver): remove them
     if let Ok(rd) = std::fs::read_dir("/var/tmp") {
         for e in rd.flatten() {
@@ -1605,6 +1906,7 @@ fn main() {
     } else {
         scenarios.extend(corpus());
         scenarios.extend(corpus_fx());
+        scenarios.extend(corpus_bg(a.seed, a.thorough()));
         // regression scenarios kept under corpus/C11 (replays that caught seeded mutations)
         let dir = Path::new(env!("CARGO_MANIFEST_DIR")).join("..").join("corpus").join("C11");
         let mut files: Vec<PathBuf> = std::fs::read_dir(&dir).map(|rd| rd.flatten().map(|e| e.path()).filter(|p| p.extension().map(|x| x == "json").unwrap_or(false)).collect()).unwrap_or_default();
@@ -1625,20 +1927,32 @@ fn main() {
         for _ in 0..n_fx {
             scenarios.push(gen_fx_scenario(&mut r));
         }
+        if a.extra.get("only").map(|v| v == "bg").unwrap_or(false) {
+            // development aid: the process-tree scenarios alone
+            scenarios.clear();
+            scenarios.extend(corpus_bg(a.seed, a.thorough()));
+        }
+        let n_bg: usize = a.extra.get("n-bg").and_then(|v| v.parse().ok()).unwrap_or(if a.thorough() { 40 } else { 3 });
+        for _ in 0..n_bg {
+            scenarios.push(gen_bg_scenario(&mut r));
+        }
     }
     let mut w = CaseWriter::new(&a.out, "Model.WsLockCase", "check_case", "model_obs", 50);
     // the content of the frames: one case per mutating tool call of an attached run (Model/SideEffects.v), ids from 1 000 000
     let mut wfx = CaseWriter::new(&a.out.join("fx"), "Base.Fs Model.SideEffects", "check_fx", "fx_obs", 25).with_base(1_000_000);
+    let mut wtree = CaseWriter::new(&a.out.join("tree"), "Model.WsLockTreeCase", "check_tree", "tree_obs", 50).with_base(2_000_000);
     let mut distinct = Distinct::default();
     let mut stuck_runs = 0;
     for (idx, sc) in scenarios.iter().enumerate() {
-        if stuck_runs >= 3 {
-            res.notes.push(format!("stopped after scenario {idx}: three scenarios ran into the progress watchdog"));
+        // a watchdog hit is a violation already (the check is red) and costs up to LONG: the run stops at the
+        // first one, so that a red run stays short
+        if stuck_runs >= 1 {
+            res.notes.push(format!("stopped after scenario {idx}: a scenario ran into a progress watchdog"));
             break;
         }
         let sc2 = sc.clone();
         let ctl2 = ctl.clone();
-        let out = std::panic::catch_unwind(std::panic::AssertUnwindSafe(|| run_scenario(&rt, &ctl2, &sc2, settle, 5)));
+        let out = std::panic::catch_unwind(std::panic::AssertUnwindSafe(|| run_scenario(&rt, &ctl2, &sc2, settle, 5, drain_wait)));
         res.evaluations += 1;
         let o = match out {
             Ok(o) => o,
@@ -1655,6 +1969,10 @@ fn main() {
         res.bump_by("blocked_attempts", o.obs.blocked_attempts);
         res.bump_by("readonly_overlaps", o.obs.ro_overlaps);
         res.bump_by("calls_outlived_by_their_command", o.obs.outlived);
+        res.bump_by("bg_attached_child_wrote_before_end", o.obs.bg_held);
+        res.bump_by("bg_detached_child_wrote_inside_another_span", o.obs.bg_detached_in_span);
+        res.bump_by("bg_detached_child_wrote_after_release", o.obs.bg_detached_late);
+        res.bump_by("tree_cases", o.tree_cases.len() as u64);
         res.bump_by("steps", o.obs.steps.len() as u64);
         res.bump_by("frames", o.frames.len() as u64);
         res.bump(&format!("actors_{}", sc.actors.len()));
@@ -1663,7 +1981,7 @@ fn main() {
         }
         let nontrivial = o.obs.blocked_attempts > 0 || o.obs.ro_overlaps > 0;
         if nontrivial && distinct.add(&format!("{:?}{:?}", sc.actors, o.gos)) {}
-        if o.obs.violations.iter().any(|(c, _)| c == "stuck") {
+        if o.obs.violations.iter().any(|(c, _)| c == "stuck" || c == "readonly-blocked") {
             stuck_runs += 1;
         }
         for (class, what) in &o.obs.violations {
@@ -1692,12 +2010,19 @@ fn main() {
                     res.case_index.insert(id.to_string(), rj.clone());
                 }
             }
+            for term in &o.tree_cases {
+                let id = wtree.push(term.clone());
+                if res.case_index.len() < 4000 {
+                    res.case_index.insert(id.to_string(), rj.clone());
+                }
+            }
         }
     }
     w.flush();
     wfx.flush();
+    wtree.flush();
     res.distinct_nontrivial = distinct.count();
-    res.case_files = w.files.iter().chain(wfx.files.iter()).map(|p| p.to_string_lossy().to_string()).collect();
+    res.case_files = w.files.iter().chain(wfx.files.iter()).chain(wtree.files.iter()).map(|p| p.to_string_lossy().to_string()).collect();
     res.write(&a.out);
     rip_kernel::verif::set_hook(None);
     println!("c11: {} scenarios, {} violations, {} nontrivial", res.evaluations, res.oracle_violations.len(), res.distinct_nontrivial);
